@@ -94,3 +94,43 @@ def start (adds : List Add) (quitAt : Nat) : St :=
   sleep 0 { now := 0, q := [], adds := adds, quitAt := quitAt, quit := false, out := [] }
 
 end Sdc.UdpSendLoop
+
+/-! ## life cycle of a discovery node (`WSDiscovery.start / stop / publish_service / clear_service`)
+
+A node owns at most one networking thread object. `start` creates one if there is none, `stop` sends the Bye of every local
+service, stops the thread (`schedule_stop`; `join` waits for the send loop to drain) and forgets it. Every message is handed
+to the thread object the node refers to at that time; a thread that has been stopped drops what it is handed. -/
+namespace Sdc.UdpLife
+
+inductive Op
+  | start | stop | publish (epr : Nat) | clear (epr : Nat)
+deriving DecidableEq, Repr
+
+structure Node where
+  started : Bool := false
+  thread : Option Bool := none      -- `some true`: a running thread, `some false`: a stopped thread object that is still referred to
+  services : List Nat := []
+deriving Repr
+
+/-- a message handed to the node's thread: `true` = accepted (will be transmitted 1 + repeat times), `false` = dropped -/
+def hand (n : Node) : Bool := n.thread == some true
+
+/-- one call; the outputs are the hand-overs it causes (Hello / Bye), `none` = the call raises (ApiUsageError / KeyError) -/
+def step (n : Node) : Op → Node × Option (List Bool)
+  | .start =>
+    if n.started then (n, some [])
+    else ({ n with started := true, thread := if n.thread.isNone then some true else n.thread }, some [])
+  | .stop =>
+    if !n.started then (n, some [])
+    else ({ started := false, thread := none, services := [] }, some (n.services.map (fun _ => hand n)))
+  | .publish e =>
+    if !n.started then (n, none)
+    else ({ n with services := if e ∈ n.services then n.services else n.services ++ [e] }, some [hand n])
+  | .clear e =>
+    if e ∈ n.services then ({ n with services := n.services.filter (· != e) }, some [hand n]) else (n, none)
+
+def run (n : Node) : List Op → List (Option (List Bool))
+  | [] => []
+  | o :: os => (step n o).2 :: run (step n o).1 os
+
+end Sdc.UdpLife
